@@ -101,6 +101,7 @@ var (
 	fMinRuns = flag.Int64("minruns", 0, "burst: run at least this many bursts even if -seconds is over (up to 6x -seconds)")
 	fKeyRefs = flag.String("keyrefs", "", "replaycheck: JSON file mapping operation keys to reference hashes")
 	fClass   = flag.String("class", "", "replaycheck: oracle class that must fail")
+	fExtBlk  = flag.Bool("extblock", false, "the tree under test can block for real (channels, real sync, goroutines): let the watchdog grant the baton past blocked tasks")
 	fBurst   = flag.Bool("burst", false, "export: a burst plan")
 	fText    = flag.Bool("text", false, "refone: print the dump text")
 )
@@ -108,6 +109,7 @@ var (
 func main() {
 	flag.Parse()
 	debug.SetGCPercent(200)
+	extBlockEnabled = *fExtBlk
 	siteCover = make([]uint8, rt.NumSites+1)
 	var err error
 	switch *fMode {
@@ -414,6 +416,9 @@ func (s *sideWriter) add(idx int64, res *runResult) {
 	if res.Aborted != "" {
 		flags |= 2
 	}
+	if res.Degraded {
+		flags |= 4
+	}
 	s.buf = binary.LittleEndian.AppendUint64(s.buf, uint64(idx))
 	s.buf = binary.LittleEndian.AppendUint64(s.buf, res.LogHash)
 	s.buf = binary.LittleEndian.AppendUint64(s.buf, h.sum())
@@ -459,6 +464,10 @@ func (st *stats) account(plan *Plan, info *planInfo, res *runResult) {
 	}
 	if res.Aborted != "" {
 		st.Aborted[res.Aborted]++
+	}
+	if res.Degraded {
+		st.Faults["degraded-run"]++
+		st.Faults["external-block-grant"] += res.ExtEvents
 	}
 	st.Foreign += res.Foreign
 	st.Infeasible += res.Infeasible
@@ -609,7 +618,7 @@ func workLoop(st *stats, refs *refTable, c workCfg, side *sideWriter) {
 		}
 		// replay self-check: the recorded schedule, executed literally, must be the same
 		// execution (same event log, same outcomes) - what every replay file relies on
-		if n%64 == 5 && len(res.Fails) == 0 && res.Aborted == "" {
+		if n%64 == 5 && len(res.Fails) == 0 && res.Aborted == "" && !res.Degraded {
 			rec := res.Rec
 			res2 := execRun(plan, execOpts{lit: &rec, refs: refs})
 			st.Faults["replay-selfcheck"]++
